@@ -36,6 +36,8 @@ empty side passed as [] or -- as the docstring allows -- None). Widths 1..16 mix
 Exhaustive over all input values when the total number of input bits is <= 10; otherwise
 the cross product of the boundary values (0, 1, all-ones, msb only, all-ones minus 1; for the
 signed multiplier also max-positive and most-negative+1) plus random vectors.
+The observing simulator is pyrtl.Simulation or pyrtl.FastSimulation (recorded in the case;
+large designs / long vector lists mostly go to FastSimulation, which steps for free).
 Oracle: Python integers. Unsigned generators: the returned wire, read as an unsigned number,
 equals the exact value (class `.truncated_result` when it only equals it modulo 2**len,
 `.wrong_value` otherwise). signed_tree_multiplier: the returned wire read as two's complement
@@ -58,7 +60,7 @@ MIN_BUDGET = 220
 
 TIERS = {
     'quick': {'runs': 20000, 'classes': 8, 'budget_s': 60},
-    'thorough': {'runs': 500000, 'classes': 32, 'budget_s': 1100},
+    'thorough': {'runs': 400000, 'classes': 32, 'budget_s': 1100},
 }
 
 COMPONENTS = {
